@@ -157,8 +157,9 @@ def raising(tree, **params):
     removal = []
     for subtree in trees.preorder(tree):
         if subtree != tree:
-            if subtree.data['split']:
-                if not subtree.data['head_block']:
+            # nodes created after boyd_split (e.g. by binarize) carry no marks
+            if subtree.data.get('split'):
+                if not subtree.data.get('head_block'):
                     removal.append(subtree)
     for subtree in removal:
         parent = subtree.parent
